@@ -127,6 +127,18 @@ CHECKS = {
         "Trusted: the reference normalisation N (unquoted -> lower, quoted -> quotes stripped); the per-template chaining evidence.",
         "DESIGN.md section 5 C16",
     ),
+    "C08": (
+        "vmc/c08.py (E1 + E6 generator around several centres x exhaustive renaming maps)",
+        "exploration",
+        "deviation-bounded enumeration of statements x exhaustive enumeration of injective renamings of their local names into an adversarial pool + alias toggles; differential oracle",
+        "Every generator case around 4 centres (simplest statement, join of two aliased tables, join of two derived tables, CTE read twice) within the "
+        "deviation bound that has local names x every injective map of its <= 3 local names into the pool {fresh, bare name of a qualified table read, bare "
+        "name of the target, a column name in use, MixedCase, soft keyword} with at most 1 (quick) / 2 (thorough) non-fresh names, excluding maps that make the "
+        "statement ambiguous by reference scope rules; + AS toggled, alias added, alias removed. Tables and end-to-end pairs must be unchanged.",
+        "Trusted: the reference scope rules that decide which renamings are legal; differential otherwise. Known findings matched by minimal-cause "
+        "signatures listed in known_findings.json.",
+        "DESIGN.md section 5 C08",
+    ),
 }
 
 NOT_YET = "check not built yet in this revision (planned in DESIGN.md section 5/11); not claimed"
